@@ -4,6 +4,7 @@ import (
 	"fmt"
 	"runtime"
 	"runtime/debug"
+	"strings"
 	"sync"
 	"time"
 
@@ -153,12 +154,23 @@ func (r *runner) execute() {
 		r.record('L', k, "", true)
 		err := caddy.Load(js, true)
 		res := "ok"
-		if err != nil {
+		switch {
+		case err != nil && c.fail:
 			res = "err"
-			if !c.fail {
+		case err != nil:
+			// A config that should have been accepted was rejected. The rest of the
+			// scenario is not run: what is left behind (see DESIGN F2: listeners the HTTP
+			// app bound before its Start failed are never closed) is cleaned up below.
+			res = "err"
+			if strings.Contains(err.Error(), "use of closed network connection") {
+				res = "stale"
+				r.fail("unix-reuse-of-closed-listener", fmt.Sprintf("load %d keeps a unix socket that a previously rejected load had also kept: %v", k, err))
+			} else {
 				r.fail("valid-config-rejected", fmt.Sprintf("load %d: %v", k, err))
 			}
-		} else if c.fail {
+			r.mark('Z', k)
+			r.poisoned = true
+		case c.fail:
 			r.fail("harness-fault-not-injected", fmt.Sprintf("load %d was expected to be rejected", k))
 		}
 		if err == nil && !r.swapped {
@@ -167,6 +179,12 @@ func (r *runner) execute() {
 		}
 		r.results = append(r.results, res)
 		r.record('R', k, res, true)
+		if r.poisoned {
+			r.evMu.Lock()
+			r.cut = len(r.events)
+			r.evMu.Unlock()
+			break
+		}
 		r.releaseAt('r')
 		if err == nil {
 			r.waitDrained(r.curGen)
@@ -190,6 +208,22 @@ func (r *runner) execute() {
 	close(stop)
 	wg.Wait()
 
+	if r.poisoned {
+		r.releaseAll()
+		_ = caddy.Stop()
+		r.waitDrained(r.curGen)
+		// listeners of the half-started config: nobody in caddy will ever close them
+		r.evMu.Lock()
+		ls := append([]*probeListener{}, r.listeners...)
+		r.evMu.Unlock()
+		for _, l := range ls {
+			if !l.closed.Load() {
+				_ = l.Close()
+			}
+		}
+		return
+	}
+
 	// final stop: everything is dropped
 	r.loading = n
 	r.swapped = false
@@ -203,7 +237,14 @@ func (r *runner) execute() {
 	r.curGen = -1
 	r.record('D', n, "", true)
 	r.releaseAt('d')
-	// any token never released (bad plan): release now so handlers do not linger
+	r.releaseAll()
+	r.evMu.Lock()
+	r.cut = len(r.events)
+	r.evMu.Unlock()
+}
+
+// releaseAll lets every request that is still parked go (bad plan or aborted scenario).
+func (r *runner) releaseAll() {
 	r.tokMu.Lock()
 	for _, t := range r.tokens {
 		if t.started && !t.released {
